@@ -2,6 +2,9 @@ import Poulpy.Model.Core.Mul
 import Poulpy.Lemmas.EpPhase
 import Poulpy.Lemmas.NegHal
 import Poulpy.Lemmas.MulTensor
+import Poulpy.Lemmas.EpBridge
+import Poulpy.Lemmas.MaskAnd
+import Poulpy.Props.C03
 import Poulpy.Props.C07
 
 /-!
@@ -107,6 +110,22 @@ theorem msb_mask_value (b k : Nat) (hb : b ≤ 63) :
 
 example : msbMaskBottomLimb 12 31 = -32 ∧ Hal.maskCoeff (msbMaskBottomLimb 12 31) 2047 = 2016
     ∧ Hal.maskCoeff (msbMaskBottomLimb 12 31) (-2048) = -2048 ∧ Hal.maskCoeff (msbMaskBottomLimb 12 31) (-1) = -32 := by decide
+
+/-- **`msb_mask_bottom_limb` applied to a limb keeps exactly its top `k mod b` bits**: for a partially used bottom limb
+(`r = k mod b ≠ 0`, `b ≤ 63`) the masked load of `cnv_prepare_*` (`Hal.maskCoeff`, the `&` of `reim_from_znx_masked` and of
+the NTT120 masked load) maps every `i64` coefficient `x` to `x − x mod 2^{b−r}` — the low `b − r` bits cleared, all others
+(the top `r` bits of a `b`-bit digit, and the sign extension) unchanged; for `r = 0` the mask is all ones and nothing changes. -/
+theorem mask_keeps_top_bits (b k : Nat) (hb : b ≤ 63) (x : Int) (hx1 : -(2 ^ 63) ≤ x) (hx2 : x < 2 ^ 63) :
+    Hal.maskCoeff (msbMaskBottomLimb b k) x = if k % b = 0 then x else x - x % 2 ^ (b - k % b) := by
+  rw [msb_mask_value b k hb]
+  by_cases h : k % b = 0
+  · simp only [h, if_true]
+    exact C07.mask_all_ones x hx1 hx2
+  · simp only [h, if_false]
+    exact Hal.maskCoeff_neg_two_pow (b - k % b) (by omega) x hx1 hx2
+
+example : Hal.maskCoeff (msbMaskBottomLimb 12 31) 2047 = 2047 - 2047 % 2 ^ 5 ∧ Hal.maskCoeff (msbMaskBottomLimb 12 31) (-1) = -1 - (-1) % 2 ^ 5 := by
+  decide
 
 /-- **tensor phase, bilinear expansion** (layer B): the product of two phases `a₀ + a₁'` and
 `b₀ + b₁'` (`x' = s ⋆ x`) is the sum of the four column products — the content of the three tensor
@@ -241,14 +260,72 @@ example : tensorApply true false 2 4 2 4 4 [[[1, -2], [3, 0]], [[2, 1], [-1, 1]]
         (zeroCols 2 3 2)).map (fun pr => List.zipWith (vecAddAssignW w64) [[[1, 1], [2, 2]], [[3, 3], [-1, -1]], [[0, 5], [5, 0]]] pr) := by
   decide
 
+/-! ## Relinearisation: the gadget product it executes is C03's -/
+
+/-- **Relinearisation phase, key `dsize = 1`.**  `glwe_tensor_relinearize` feeds the `pairs` columns of the tensor that
+multiply `s_i·s_j` to `gglwe_product_dft` with the tensor key; the executed product (`Core.gglweProductDft` =
+`Ks.gglweProductDft`) has, at limb `l`, the phase `Σ_j a_j ⋆ phase(key row j)_l` under the target secret — whatever
+`res_dft` held before (`res0`).  With the key relation `phase(key row (r, p)) = s_i s_j·β^{S−(r+1)·dsize} + E`
+(checked cell by cell by the oracle of `./check C05`) `C03.gadget_identity` turns this into
+`Σ_p s_{i_p} s_{j_p} · val(a_p) + Σ digit·E − dropped`: the pair columns are re-encrypted under `s`, and adding the tensor's
+first `rank+1` columns gives `phase_s(res) = tensor_phase(a) + Σ digit·E − dropped`. -/
+theorem relin_product_phase_dsize1 (sk : List Poly) (a : List Col) (g : GGLWE) (res0 : List Col) (l : Nat)
+    (h1 : g.dsize = 1) (h0 : shapeOk g.n g.colsOut g.size res0 = true) (hc : 0 < g.colsOut) (hl : l < g.size)
+    (hM : ∀ j q, (g.toPMat.entry j q).length = g.n) :
+    Ks.phaseRow sk ((Core.gglweProductDft a g g.size res0).map (fun col => limbOr0 g.n col l)) =
+      sumPolys g.n ((List.range (min (g.colsIn * g.dnum) (mkBuf g.n g.colsIn (a.getD 0 []).length a).flat.length)).map (fun j =>
+        Hal.negMul ((mkBuf g.n g.colsIn (a.getD 0 []).length a).flat.getD j (zeroP g.n)) (Ks.phaseRow sk (Ks.rowLimb g.toPMat j l)))) := by
+  have s0 := (mkBuf_shape g.n g.colsOut g.size res0 h0).1
+  have h := C03.keyswitch_phase_dsize1 sk (mkBuf g.n g.colsOut g.size res0) (mkBuf g.n g.colsIn (a.getD 0 []).length a) g.toKey l
+    h1 s0.1 rfl hc hl hl hM
+  have e : Ks.gglweProductDft (mkBuf g.n g.colsOut g.size res0) (mkBuf g.n g.colsIn (a.getD 0 []).length a) g.toKey
+      = Hal.opVmp (mkBuf g.n g.colsOut g.size res0) (mkBuf g.n g.colsIn (a.getD 0 []).length a) g.toPMat 0 := by
+    unfold Ks.gglweProductDft
+    have h1' : g.toKey.dsize = 1 := h1
+    simp only [h1', if_true]
+    rfl
+  have v := Ks.opVmp_spec (mkBuf g.n g.colsOut g.size res0) (mkBuf g.n g.colsIn (a.getD 0 []).length a) g.toPMat 0 s0.1
+  have hb : Ks.bufRow (Ks.gglweProductDft (mkBuf g.n g.colsOut g.size res0) (mkBuf g.n g.colsIn (a.getD 0 []).length a) g.toKey) l
+      = (Core.gglweProductDft a g g.size res0).map (fun col => limbOr0 g.n col l) := by
+    unfold Core.gglweProductDft Ks.bufRow
+    simp only [List.map_map]
+    rw [e, v.2.1, v.2.2.2.1]
+    rfl
+  rw [← hb]
+  exact h
+
+example : Ks.phaseRow [] ((Core.gglweProductDft [[[2]]]
+      { base2k := 4, n := 1, colsIn := 1, colsOut := 1, dsize := 1, dnum := 1, size := 1, cells := [[[[3]]]] } 1 [[[9]]]).map
+        (fun col => limbOr0 1 col 0)) = [6] := by decide
+
+/-- **Relinearisation phase, key `dsize ≥ 2`**: C03's accumulation theorem on the executed product — limb `l` of the phase is
+pass 0's phase plus, for every later pass `k+1` whose truncated size covers `l`, that pass's phase; each pass phase is a
+digit-weighted sum of key-row phases (`C03.passPhase`, `C03.limb_used_iff`: the limbs selected by
+`(step, offset) = (dsize, dsize−1−di)` are the digits of the base-`2^{dsize·b}` decomposition). -/
+theorem relin_product_phase_dsize_gt1 (sk : List Poly) (a : List Col) (g : GGLWE) (res0 : List Col) (l : Nat)
+    (hD : 2 ≤ g.dsize) (h0 : shapeOk g.n g.colsOut g.size res0 = true) (hc : 0 < g.colsOut)
+    (hM : ∀ j q, (g.toPMat.entry j q).length = g.n) :
+    Ks.phaseRow sk ((Core.gglweProductDft a g g.size res0).map (fun col => limbOr0 g.n col l)) =
+      (List.range (g.dsize - 1)).foldl
+        (fun acc k => if l < Ks.passSize g.toKey (k + 1)
+          then polyAdd acc (C03.passPhase sk (mkBuf g.n g.colsIn (a.getD 0 []).length a) g.toKey g.n (k + 1) l) else acc)
+        (if l < Ks.passSize g.toKey 0 then C03.passPhase sk (mkBuf g.n g.colsIn (a.getD 0 []).length a) g.toKey g.n 0 l
+         else zeroP g.n) := by
+  have s0 := (mkBuf_shape g.n g.colsOut g.size res0 h0).1
+  have h := C03.keyswitch_phase_dsize_gt1 sk (mkBuf g.n g.colsOut g.size res0) (mkBuf g.n g.colsIn (a.getD 0 []).length a) g.toKey
+    hD s0.1 rfl rfl hc rfl hM l
+  unfold Core.gglweProductDft
+  simp only [List.map_map]
+  exact h
+
+example : Ks.phaseRow [] ((Core.gglweProductDft [[[2], [1]]]
+      { base2k := 4, n := 1, colsIn := 1, colsOut := 1, dsize := 2, dnum := 1, size := 3, cells := [[[[3], [0], [0]]]] } 3
+        [[[9], [9], [9]]]).map (fun col => limbOr0 1 col 0)) = [3] := by decide
+
 /-
 NOT PROVED (checked by correspondence on every generated case, see docs/C05.md):
 * `tensorSquare_eq_tensorApply` and `tensorApply_acc_eq_add` for ranks ≥ 3 (the property's quantifier is rank 1..2;
   the loops are unfolded per rank, the column arithmetic `col_square` / `col_acc` is rank independent);
-* `maskCoeff (−2^s) x = x − x mod 2^s` for all `i64` x (the AND of `reim_from_znx_masked`); the
-  mask's value is `msb_mask_value`, the AND is only exemplified;
-* relinearisation: C03's gadget statement applied to `gglweProductDft` (same `Hal.vmpFlat`, so
-  `C04.vmp_phase` applies to each pass verbatim).
 -/
 
 end C05
